@@ -333,8 +333,10 @@ class JSONRPC:
         '''Encode a Python object as JSON and convert it to bytes.'''
         try:
             return json.dumps(payload, separators=(',', ':')).encode()
-        except TypeError:
-            msg = f'JSON payload encoding error: {payload}'
+        except (TypeError, ValueError, RecursionError):
+            # TypeError: not JSON-serializable; ValueError: circular reference or an integer
+            # with too many digits; RecursionError: nested too deeply
+            msg = 'JSON payload encoding error'
             raise ProtocolError(cls.INTERNAL_ERROR, msg) from None
 
 
